@@ -82,9 +82,10 @@ func (h *Handler) Listen(s *xmpp.Session) *Listener {
 		return l
 	}
 	l = &Listener{
-		s: s,
-		h: h,
-		c: make(chan *Conn),
+		s:      s,
+		h:      h,
+		c:      make(chan *Conn),
+		closed: make(chan struct{}),
 	}
 	h.l[addrStr] = l
 	return l
@@ -196,7 +197,13 @@ func handleOpen(h *Handler, iq openIQ, e xmlstream.Encoder) error {
 			// session on a channel that nobody receives from.
 		}
 	}
-	l.c <- conn
+	select {
+	case l.c <- conn:
+	case <-l.closed:
+		// The listener was closed while the request waited to be accepted:
+		// nobody will ever read from this stream.
+		h.rmStream(iq.Open.SID)
+	}
 	return nil
 }
 
